@@ -6,8 +6,8 @@ open Sozu Sozu.Proto Sozu.Hub
 /-! Line protocol of the Hub model (C09).
 
 ```
-new W T                       W workers, worker_timeout = T time units  -> ok
-req C VERB [K]                client C sends a request
+new W T [S]                   W workers (the last S with a small channel ceiling), worker_timeout = T units -> ok
+req C VERB [K]                client C sends a request (`addbig`: a mutating request the small workers' channels refuse)
 ans W RW RT RS ST             worker W's channel delivers {id = RW-RT-RS, status ST}
 close W | adv N | drop C | tick
 hold … release                the lines in between are delivered as one poll batch
@@ -127,6 +127,9 @@ structure DState where
   hub : Hub
   held : Bool
   queue : List Op
+  /-- workers whose channel ceiling is too small for a big request (`new W T S`:
+      the last `S` workers) -/
+  small : List Nat := []
 
 /-- Outside a hold every line is one `poll` batch: the event, then the run
     loop's finishing pass. `hold` … `release` delivers all the lines in between
@@ -137,6 +140,22 @@ def stepLine (fl : Flags) (d : DState) (line : String) : DState × List String :
     match w.toNat?, t.toNat? with
     | some w, some t => ({ hub := Hub.init fl.fwd fl.excl fl.retire t w, held := false, queue := [] }, ["ok"])
     | _, _ => (d, ["bad-op"])
+  | ["new", w, t, sm] =>
+    match w.toNat?, t.toNat?, sm.toNat? with
+    | some w, some t, some sm =>
+      ({ hub := Hub.init fl.fwd fl.excl fl.retire t w, held := false, queue := [],
+         small := (List.range w).filter (fun i => w ≤ i + sm) }, ["ok"])
+    | _, _, _ => (d, ["bad-op"])
+  | ["req", c, "addbig"] =>
+    -- a mutating request too large for the small workers' channels: scattered
+    -- as usual, then every send to a small worker fails
+    match c.toNat? with
+    | some c =>
+      if d.held then (d, ["bad-op"]) else
+      let h1 := run d.hub (Op.request c .worker :: d.small.map Op.sendFail)
+      let h' := step h1 .tick
+      ({ d with hub := h' }, [delta d.hub h'])
+    | none => (d, ["bad-op"])
   | ["hold"] => if d.held then (d, ["bad-op"]) else ({ d with held := true, queue := [] }, ["-"])
   | ["release"] =>
     if !d.held then (d, ["bad-op"]) else
